@@ -267,8 +267,32 @@ class HttpCallSiteHarness:
         pl2 = sym_bytes(c, 1, 'pt2')
         spl = sym_bytes(c, 1, 'snap')
 
+        attack_spec = {'k': None}
+
+        def scenario(m):
+            def lit(t):
+                return {'lit': str(show(t, m))}
+            cs = [{'h': 0, 'call': 'add_version', 'parent': lit(P), 'payload': show(pl1, m)},
+                  {'h': 0, 'call': 'add_version', 'parent': {'ref': 0}, 'payload': show(pl2, m)},
+                  {'h': 0, 'call': 'add_snapshot', 'version': {'ref': 0}, 'payload': show(spl, m)},
+                  {'h': 0, 'call': 'get_child_version', 'parent': lit(P)},
+                  {'h': 0, 'call': 'get_snapshot'}]
+            k = attack_spec['k']
+            if k is not None:
+                Qv = lit(attack_spec['Q'])
+                cs.append([
+                    {'h': 0, 'call': 'get_child_version', 'parent': Qv, 'tamper': {'body_of_version': 0, 'version': {'ref': 0}, 'parent': Qv}},
+                    {'h': 0, 'call': 'get_child_version', 'parent': lit(P), 'tamper': {'body_of_version': 1, 'version': {'ref': 0}, 'parent': lit(P)}},
+                    {'h': 0, 'call': 'get_child_version', 'parent': {'ref': 0}, 'tamper': {'body_of_version': 0, 'version': lit(P), 'parent': {'ref': 0}}},
+                    {'h': 0, 'call': 'get_snapshot', 'tamper': {'as': 'snapshot', 'version': {'ref': 1}}},
+                    {'h': 0, 'call': 'get_snapshot', 'tamper': {'as': 'snapshot', 'body_of_version': 1, 'version': {'ref': 1}}},
+                ][k])
+            return {'kind': 'srvcalls', 'backend': 'http', 'handles': 1, 'client_id': str(show(cid, m)), 'secret': list(w.secret),
+                    'calls': cs, 'inspect_sealing': True}
+
         def wit(m):
-            return {'backend': 'http', 'client_id': show(cid, m), 'parent': show(P, m), 'requests': [(q[0], q[1], show(q[2], m)) for q in srvm.requests]}
+            return {'backend': 'http', 'client_id': show(cid, m), 'parent': show(P, m), 'requests': [(q[0], q[1], show(q[2], m)) for q in srvm.requests],
+                    'scenario': scenario(m), 'payloads': [show(pl1, m), show(pl2, m), show(spl, m)]}
         # --- key derivation: salt = the 16 bytes of the client id
         if len(log['kdf']) != 1:
             c.prove(False, 'the HTTP client derived no key or more than one', wit, {'class': 'http-kdf'})
@@ -347,6 +371,7 @@ class HttpCallSiteHarness:
              lambda ep, resp: R(200, [('content-type', CT_SNAPSHOT), ('x-version-id', dashed(Y))], body_y, resp.url)),
         ]
         k = c.choose(len(attacks), 'attack')
+        attack_spec['k'], attack_spec['Q'] = k, Q
         name, call, tamper = attacks[k]
         srvm.tamper = tamper
         r = w.run(call())
@@ -356,6 +381,11 @@ class HttpCallSiteHarness:
         c.cover('http: re-labelled data rejected: ' + name)
         out = {'backend': 'http', 'attack': name}
         if c.want_sample:
+            m = c.get_model()
+            if m is not None:
+                d = wit(m)
+                out['scenario'] = d['scenario']
+                out['predicted'] = {'kind': 'http', 'payloads': d['payloads']}
             out['_encoded'] = sorted(I.encoded)
             out['_modelled'] = sorted(I.modelled)
         return out
@@ -382,6 +412,37 @@ def _seal_problems(scn, out):
             probs.append({'open rejected or wrong': r, 'attempt': o})
         if o.get('expect') == 'err' and 'err' not in r:
             probs.append({'open accepted': r, 'attempt': o})
+    return probs
+
+
+def _http_problems(scn, out, payloads):
+    """property C13 on the compiled HTTP client: every body that reached the in-process sync server opens, with the independent
+    implementation of the documented construction, under salt = client id and the documented binding, to what was handed
+    over; no request carried plaintext; the honest read-back returned the bytes; the re-labelled answer was rejected"""
+    probs = []
+    if not isinstance(out, dict) or 'results' not in out:
+        return [{'replay': str(out)[:300]}]
+    if out.get('request_problems'):
+        probs.append({'request_problems': out['request_problems']})
+    if out.get('plaintext_in_a_request_body'):
+        probs.append({'plaintext_in_a_request_body': True})
+    seal = out.get('sealing', [])
+    if len(seal) != 3:
+        probs.append({'objects_at_the_server': len(seal)})
+    for o, want in zip(seal, payloads):
+        okk = o.get('opens_bound_to_parent_with_client_id_salt', o.get('opens_bound_to_own_id_with_client_id_salt'))
+        if not okk:
+            probs.append({'not sealed in the documented form (salt = client id, documented binding)': o})
+        elif o.get('plain') != want:
+            probs.append({'opens to something else than what was handed over': o})
+    res = out['results']
+    if len(res) >= 5:
+        if not (isinstance(res[3], dict) and res[3].get('version', {}).get('bytes') == payloads[0]):
+            probs.append({'honest read-back of the version': res[3]})
+        if not (isinstance(res[4], dict) and res[4].get('snapshot', {}).get('bytes') == payloads[2]):
+            probs.append({'honest read-back of the snapshot': res[4]})
+    if len(res) >= 6 and not (isinstance(res[5], dict) and 'err' in res[5]):
+        probs.append({'re-labelled data returned': res[5]})
     return probs
 
 
@@ -415,14 +476,13 @@ def _callsite_problems(scn, out, payloads):
 
 
 def replay_scenario(v):
-    if v['witness'].get('backend') == 'http':
-        return {'kind': 'noop'}
     return v['witness']['scenario']
 
 
 def replay_judge(scn, out, v):
-    if scn.get('kind') == 'noop':
-        return True, {'note': 'HTTP call sites: judged by the engine (the replay binary has no HTTP server)'}
+    if scn.get('backend') == 'http':
+        p = _http_problems(scn, out, v['witness'].get('payloads', []))
+        return bool(p), p[:4]
     if scn.get('kind') == 'seal':
         p = _seal_problems(scn, out)
     else:
@@ -431,6 +491,9 @@ def replay_judge(scn, out, v):
 
 
 def validate_samples(s, out):
+    if s['scenario'].get('backend') == 'http':
+        p = _http_problems(s['scenario'], out, s['predicted'].get('payloads', []))
+        return (not p), p[:4]
     if s['scenario'].get('kind') == 'seal':
         p = _seal_problems(s['scenario'], out)
     else:
@@ -459,7 +522,7 @@ def configs(tier):
 
 ASSUMPTIONS = [
     'ring primitives idealised: PBKDF2 = injective function of (algorithm, iterations, salt, secret); AEAD open succeeds iff ciphertext+tag are exactly those of one seal call and key, nonce, AAD are equal (any modification or truncation rejected) — the textbook contracts; the primitives themselves (assembly/C behind FFI, 600000 HMAC iterations) cannot be executed symbolically',
-    'claimed for the Rust-side construction (parameters, envelope layout, AAD, nonce freshness, round trip, rejection), for the object-store call sites and for the HTTP call sites (reqwest modelled at its call boundary: a request is a record of method, url, headers and body; HTTP counterexamples are judged by the engine); the git call sites are not executed',
+    'claimed for the Rust-side construction (parameters, envelope layout, AAD, nonce freshness, round trip, rejection), for the object-store call sites and for the HTTP call sites (reqwest modelled at its call boundary: a request is a record of method, url, headers and body; the replay runs the scenario through ServerConfig::Remote with the real reqwest and the real primitives against an in-process sync server, which opens every body it received with the independent implementation of the documented construction); the git call sites are not executed',
     'a snapshot of version V and the history segment whose parent is V are both bound to V by the documented scheme; serving one as the other is not distinguishable by the binding and is not attempted',
     'replay: the solver model (salt, secret, version id, payload, tampering) is run on the compiled Cryptor through the hook and judged against an independent implementation of the documented construction written directly on ring in the replay binary (real PBKDF2 / ChaCha20-Poly1305); object-store call sites: every stored object must open under its own version id with that reference',
 ]
